@@ -96,7 +96,13 @@ def make_c(R, tm, rng):
             # a flag line carrying a (meaningless) length larger than the lane's: must not move the end time
             body.append("%d = N %d %d" % (t, rng.choice([5, 6]), ln + rng.choice([1, R, 7 * R])))
     body += ["%d = S 2 %d" % (t, rng.choice([0, R, 10 * R])) for t in ticks(2)] + ["%d = E solo%d" % (t, i) for i, t in enumerate(ticks(2))]
-    text = chart_text(res=R, sync=sync, events=ev, tracks=[(rng.choice(["ExpertSingle", "HardDrums", "EasyGHLBass"]), body)])
+    if rng.random() < 0.35:
+        # tempo anchors (A lines), also on the ticks of tempo changes and with times that do not agree with the tempo map (stale
+        # anchors): they are recorded, they never time anything
+        sync += ["%d = A %d" % (t, rng.choice([0, 1, 137, 2408, 10 ** 6, rng.randint(0, 10 ** 8)])) for t in sorted(rng.sample([x for x, _ in tm], min(len(tm), rng.randint(1, 3))))]
+    if rng.random() < 0.25:
+        sync = [(rng.choice(["", " ", "\u3000", "\t"]) + respell_digits(rng, l) + ("" if " = A " in l else rng.choice(["", "\u3000"]))) if rng.random() < 0.5 else l for l in sync]
+    text = vary_layout(rng, chart_text(res=R, sync=sync, events=ev, tracks=[(rng.choice(["ExpertSingle", "HardDrums", "EasyGHLBass"]), body)]), p=0.3)
     ch, exc, out = parse_case(text)
     return dict(case=dict(kind="chart", R=R, tm=[list(x) for x in tm], text=text),
                 in_term="((true, %s, %s), %s)" % (coq_Z(R), coq_list("(%s, %s)" % (coq_Z(t), coq_Z(n)) for t, n in tm), parse_in_term(text)),
